@@ -72,17 +72,25 @@ RULE = (
 ASSUMPTIONS = [
     "value alphabets only: weights/advantages/returns/rewards {-2,0,1}, return offsets {-1,0,2}, ratios "
     "1 -/+ 2 eps, 1 -/+ eps/2 (thorough) and exactly 1, clip {0.1,0.2}, alpha {0,0.2,0.5}; tiny networks "
-    "(1 hidden layer x 3 units) at 2-5 initialisation seeds and rescaled copies; no claim about other reals",
+    "(1 hidden layer x 3 units) at 2-6 initialisation seeds and rescaled copies (x0, x8; x2 for PPO); no claim "
+    "about other reals; PPO items with |log pi| > 30 (float32 cannot place a ratio 1 +/- 2 eps there) are counted "
+    "and skipped",
     "log pi, entropy, sample and Q are taken from the repo's own policy heads / critics (the same forward "
     "passes): this check is about how the objectives combine them, C13 is about the heads themselves; PPO "
-    "cases whose policy head's entropy() raises on the batch (GaussianPolicy, N != 2) are counted and skipped",
+    "items whose policy head's entropy() raises on the batch are counted and skipped (none on the current tree)",
     "ppo_loss = policy term + c_v * value term - c_e * mean entropy with constants c_v > 0 and c_e that the "
-    "property does not fix: they are measured from the implementation (softmax actor, (N,) critic, zero "
-    "advantages) and reported in the evidence",
+    "property does not fix: they are measured from the implementation at zero advantages (c_e from two actors "
+    "with the same critic so that the value term cancels, c_v at batch size 1) and reported in the evidence",
     "mrq_policy_loss: the documented activation regulariser is an allowed additive term; value and gradient "
     "of the deterministic-policy-gradient part are checked at activation_weight 0, the decomposition "
     "loss = dpg + weight * regulariser at weight > 0",
     "gradients are computed under nnx.jit (the shipped mode of every update routine); jax autodiff is trusted",
+    "comparison tolerances: values 1e-5 max(1,|ref|,largest summand); gradients element-wise rtol 2e-4 + atol 1e-6 "
+    "+ 8 eps32 x largest entry of the reference gradient (float32 back-propagation noise)",
+    "'gradients reach only the actor' is observed on the shipped update routines (ddpg_update_actor, "
+    "td7_update_actor, sac_update_actor with SGD(1.0)): the actor moves by minus the reference gradient and the "
+    "critic / embedding snapshots stay bytes-equal; 'weights are constants' is observed with a baseline that "
+    "shares all its parameters with the policy",
 ]
 BUDGET_S = {"quick": 480, "thorough": 2400}
 
@@ -397,23 +405,39 @@ def make_critic(cshape, seed):
 
 
 def ppo_calibrate(item, col):
-    """c_e, c_v from the implementation: softmax actor, (N,) critic, N=2, zero advantages."""
-    actor = make_actor("softmax", pseed(item, 0, 7))
-    critic = make_critic("N", pseed(item, 0, 8))
-    obs, _, act = make_batch("softmax", 2, item["seed"], 3)
-    lp = actor.log_probability(obs, act)
-    v = critic(obs)
-    H = float(np.mean(f64(actor.entropy(obs))))
-    z = jnp.zeros(2)
-    l0 = float(PPO.ppo_loss(actor, critic, lp, obs, act, z, v, 0.2))
-    l1 = float(PPO.ppo_loss(actor, critic, lp, obs, act, z, v + 1.0, 0.2))
-    ce, cv = -l0 / H, l1 - l0
-    ce, cv = round(ce, 6), round(cv, 6)
+    """c_e, c_v measured from the implementation with zero advantages (policy term = 0):
+    c_e = -(L(actor A) - L(actor B)) / (H_A - H_B)   same critic and returns, so the value term cancels
+                                                      whatever its form; A = uniform softmax, B = peaked;
+    c_v = L(R = V + 1) - L(R = V)  at batch size 1, where per-sample and pairwise means coincide
+    (batch size 2 only if the implementation rejects N = 1)."""
+    last = None
+    for n in (1, 2):
+        try:
+            critic = make_critic("N", pseed(item, 0, 8))
+            obs, _, act = make_batch("softmax", n, item["seed"], 3)
+            v = critic(obs)
+            z = jnp.zeros(n)
+            LH = []
+            for pv in ("x0", "x8"):
+                actor = make_actor("softmax", pseed(item, 0, 7), pv)
+                lp = actor.log_probability(obs, act)
+                LH.append((float(PPO.ppo_loss(actor, critic, lp, obs, act, z, v, 0.2)), float(np.mean(f64(actor.entropy(obs)))), actor, lp))
+            (la, ha, actor, lp), (lb, hb, _, _) = LH
+            l1 = float(PPO.ppo_loss(actor, critic, lp, obs, act, z, v + 1.0, 0.2))
+            break
+        except Exception as e:  # noqa: BLE001
+            last = e
+    else:
+        col.tick(1)
+        col.violation(SIG.format("ppo_loss", K_RAISE), dict(what="calibration", error=repr(last)[:300]))
+        return None
+    assert abs(ha - hb) > 0.05, (ha, hb)
+    ce, cv = -(la - lb) / (ha - hb), l1 - la
     col.tick(1)
     if not cv > 0:  # the sign/size of the entropy coefficient is a free hyper-parameter
-        col.violation(SIG.format("ppo_loss", K_PPO_COEF), dict(c_v=cv, c_e=ce, l0=l0, l1=l1, entropy=H))
+        col.violation(SIG.format("ppo_loss", K_PPO_COEF), dict(c_v=cv, c_e=ce, losses=[la, lb, l1], entropies=[ha, hb]))
         return None
-    col.set("ppo_measured_coefficients", dict(c_v=cv, c_e=ce))
+    col.set("ppo_measured_coefficients", dict(c_v=round(cv, 5), c_e=round(ce, 5)))
     return cv, ce
 
 
